@@ -167,6 +167,8 @@ def decompose(it, tr, s, mode):
     for g in range(1, tr.ngroups + 1):
         if g in d.groups:
             present, val = d.groups[g]
+            # a group is a piece of the subject (helps length reasoning)
+            ctx.assume(z3.Length(val) <= z3.Length(s.e))
             present = z3.simplify(present)
             if z3.is_true(present):
                 v = VStr(val, tr.is_bytes)
